@@ -318,7 +318,7 @@ func installOpHooks(c *sim.Ctx, disk *sim.Disk) {
 	operator.VerifTimerCacheSize = func(uint64) uint64 { return tc }
 	storage.VerifFileSystemFactory = func(location string) storage.FileSystem {
 		node := location[strings.LastIndex(location, "/")+1:]
-		if i := strings.LastIndex(node, "-"); i > 0 { // "<operator id>-<redeployment>"
+		if i := strings.LastIndex(node, "-"); i > 0 && isDigits(node[i+1:]) { // "<operator id>-<redeployment>"
 			node = node[:i]
 		}
 		return disk.FS("op-"+node, location)
@@ -831,4 +831,13 @@ func (w *opWorld) verifyCheckpoint(a *ackRec) bool {
 	c.Probe("checkpoint-verified")
 	_ = sst.ResetMetrics
 	return true
+}
+
+func isDigits(s string) bool {
+	for _, c := range s {
+		if c < '0' || c > '9' {
+			return false
+		}
+	}
+	return s != ""
 }
